@@ -123,7 +123,7 @@ def shamtW (w : BitVec 32) : Nat := (w.extractLsb' 20 5).toNat
 
 /-! ## decoding (manual chapter 24, "RV32/RV64G Instruction Set Listings") -/
 
-def decode (isa : Isa) (w : BitVec 32) : Option Mn :=
+def decodeRaw (isa : Isa) (w : BitVec 32) : Option Mn :=
   let op := fOpcode w
   let f3 := fFunct3 w
   let f7 := fFunct7 w
@@ -170,6 +170,10 @@ def decode (isa : Isa) (w : BitVec 32) : Option Mn :=
      else if f7 = 0x20 then (if f3 = 0 then some .SUBW else if f3 = 5 then some .SRAW else none)
      else none)
   else none
+
+/-- a word decodes to a mnemonic of the ISA at hand (RV64I-only mnemonics never appear in RV32I) -/
+def decode (isa : Isa) (w : BitVec 32) : Option Mn :=
+  (decodeRaw isa w).filter (fun m => isa == .rv64 || !m.only64)
 
 /-! ## execution (manual chapters 2 and 5) -/
 
